@@ -1,17 +1,13 @@
 (* C20 - Prefix tables are optimal for the symbols they code.
-   FULL STATEMENT (NOT PROVED; kept visible):
-     for every block lbzip2 writes and every table t used by at least one group,
-       forall lens', length lens' = length lens_t -> Forall (fun l => 1 <= l <= max lens_t) lens' ->
-         kraft lens' = kraft_full -> cost freq_t lens_t <= cost freq_t lens'
-   This is the correctness theorem of (boundary) Package-Merge for the code in
-   src/encode.c (package_merge/assign_codes); it is not mechanised here.  What is
-   delivered: (1) the properties that the strict format demands of every table
-   the encoder emits are part of witness_ok, which the correspondence evaluates on
-   the REAL encoder state of every generated block (code lengths 1..20, Kraft sum
-   exactly full, also for tables no group uses); (2) decoding with such tables
-   inverts coding with them (C20_partial_codes_decodable); (3) optimality is
-   TESTED per used table against an independent length-limited optimum
-   (checks/enclib.optimal_limited_cost) - testing, labelled so in the evidence. *)
+   The optimality theorem of the code in src/encode.c (sort_alphabet / package_merge /
+   assign_codes) is proved in Properties_C20pm.v (C20pm_optimal, C20pm_safe_and_complete)
+   about the executable model Enc/PmModel.v, which is tied to encode.c by the
+   correspondence of checks/pm_part.py.  THIS file holds the format-side facts: every table
+   accepted by the strict-format predicate table_ok (which witness_ok demands of every table
+   the encoder emits, and which C20pm_safe_and_complete proves of every assign_codes result)
+   has lengths 1..20, is a COMPLETE prefix code, and its canonical code decodes uniquely.
+   What stays evaluated per generated block rather than proved: that the frequency vector
+   handed to assign_codes() is the count vector of the groups that select the table. *)
 From Coq Require Import List NArith Arith Bool Lia.
 From LBZ Require Import Common.Bits Dec.Prog Dec.Format Enc.EncModel Enc.EncFacts Enc.HuffProofs.
 Import ListNotations.
@@ -20,13 +16,13 @@ Local Open Scope N_scope.
 Definition cost (freqs lens : list N) : N := fold_left N.add (map (fun p => fst p * snd p) (combine freqs lens)) 0.
 
 (* every table accepted by table_ok has all lengths in 1..20 and is a COMPLETE prefix code *)
-Theorem C20_partial_lengths_and_completeness :
+Theorem C20_table_ok_means_complete_1_20 :
   forall alpha lens, table_ok alpha lens = true ->
     length lens = alpha /\ Forall (fun l => 1 <= l <= 20) lens /\ kraft lens = kraft_full.
 Proof. exact table_ok_spec. Qed.
 
 (* the canonical code of such a table is uniquely decodable, symbol by symbol *)
-Theorem C20_partial_codes_decodable :
+Theorem C20_codes_decodable :
   forall alpha lens s rest, table_ok alpha lens = true -> (N.to_nat s < alpha)%nat ->
     run (decode_sym lens) (sym_bits lens s ++ rest) = Ok (s, rest).
 Proof. exact sym_roundtrip. Qed.
